@@ -24,7 +24,8 @@ KEY_EEXIST = "flush/mktemp-collision-EEXIST/descriptor-and-temp-file-leak"
 KEY_FDOPEN = "flush/fdopen-failure/temp-file-and-descriptor-leak"
 
 # fragment index -> (relative path, directory)
-LAYOUT = [("format", ""), ("sub1/format1", "sub1"), ("format2", ""), ("sub2/format3", "sub2")]
+LAYOUT = [("format", ""), ("sub1/format1", "sub1"), ("format2", ""), ("sub2/format3", "sub2"), ("sub1/formatnew", "sub1")]
+NFRAG0 = 4          # fragments of the template; index 4 is created by the `include` operation
 O_CREAT_EXCL = 0o300
 
 
@@ -41,7 +42,7 @@ def old_text(i, big):
 def make_template(d, big):
     for sub in ("sub1", "sub2"):
         os.makedirs(os.path.join(d, sub))
-    for i, (rel, _) in enumerate(LAYOUT):
+    for i, (rel, _) in enumerate(LAYOUT[:NFRAG0]):
         with open(os.path.join(d, rel), "w") as fh:
             fh.write(old_text(i, big.get(i, 0)))
 
@@ -56,7 +57,9 @@ def frs_of(op, mods):
     if op.startswith("rewrite:"):
         return [int(op[8:])]
     if op == "rewriteall":
-        return list(range(len(LAYOUT)))
+        return list(range(NFRAG0))
+    if op == "include":
+        return [0, 4]
     return sorted(mods)
 
 
@@ -88,9 +91,14 @@ class Scenario:
         os.makedirs(self.dir)
         make_template(self.tmpl, self.big)
         self.frs = frs_of(op, self.mods)
+        self.include = (op == "include")
+        if self.include:
+            self.mods = [0, 4]          # the operation itself changes the parent and the new fragment
         self.n = 0
 
     def modarg(self):
+        if self.include:
+            return "-"
         return ",".join(str(m) for m in self.mods) if self.mods else "-"
 
     def desc(self):
@@ -109,7 +117,9 @@ def classify_files(sc, tr, old, new):
     cls = []
     for i in sc.frs:
         b = tr.get(LAYOUT[i][0])
-        if b is None:
+        if old.get(i) is None and (b is None or b == b""):
+            cls.append("O")          # a fragment the operation creates: absent or still empty = previous state
+        elif b is None:
             cls.append("-")
         elif b == old[i]:
             cls.append("O")
@@ -263,7 +273,7 @@ def main():
     plan = [({0}, "metaflush", {}), ({1}, "metaflush", {}), ({0, 2}, "metaflush", {}), ({1, 3}, "close", {}),
             ({0, 1, 3}, "flush", {}), ({0, 1, 2, 3}, "metaflush", {}), ({0, 1, 2, 3}, "sync", {1: 160}),
             ({2}, "rewrite:2", {}), ({1}, "rewriteall", {}), ({0, 3}, "close", {0: 330, 3: 170}),
-            (set(), "rewrite:1", {}), ({0, 1}, "rewrite:1", {})]
+            (set(), "rewrite:1", {}), ({0, 1}, "rewrite:1", {}), (set(), "include", {})]
     nrand = 3 if not chk.thorough else 40
     ops = ["metaflush", "flush", "sync", "close", "rewriteall", "rewrite:0", "rewrite:1", "rewrite:2", "rewrite:3"]
     for _ in range(nrand):
@@ -310,7 +320,8 @@ def main():
             chk.violation("harness", "baseline run failed for %s: rc=%s %s" % (sc.desc(), sc.base_rc, sc.raw_out[-400:]),
                           {"kind": "harness", "scenario": sc.desc()}, found=False)
             continue
-        sc.old = {i: open(os.path.join(sc.tmpl, LAYOUT[i][0]), "rb").read() for i in range(len(LAYOUT))}
+        sc.old = {i: (open(os.path.join(sc.tmpl, LAYOUT[i][0]), "rb").read() if os.path.exists(os.path.join(sc.tmpl, LAYOUT[i][0])) else None)
+                  for i in range(len(LAYOUT))}
         sc.new = {i: norm(sc.final[LAYOUT[i][0]]) for i in sc.frs if LAYOUT[i][0] in sc.final}
         toks, idxs, tmps = tokens(sc.calls, sc)
         sc.toks, sc.idxs = toks, idxs
@@ -326,12 +337,12 @@ def main():
             elif t.startswith("fchmod"):
                 seen_chmod = True; perm.append(byidx[ix].arg & 0o7777)
         sc.chunks, sc.perm = chunks, perm
-        sc.oldlen = {i: len(sc.old[i]) for i in range(len(LAYOUT))}
+        sc.oldlen = {i: len(sc.old[i] or b"") for i in range(len(LAYOUT))}
         # spec: success, everything the operation writes is new, flags cleared, no temp
         cls, tm = classify_files(sc, sc.final, sc.old, sc.new)
         exp_flags_ok = True
         if h["first"]["flags"] is not None:
-            for i in range(len(LAYOUT)):
+            for i in range(len(h["first"]["flags"])):
                 want = 0 if i in sc.frs else (1 if i in sc.mods else 0)
                 if h["first"]["flags"][i] != want:
                     exp_flags_ok = False
@@ -344,7 +355,7 @@ def main():
     # ---------------------------------------------------------------- model predictions
     lines, owners = [], []
     for sc in good:
-        if len(sc.perm) != len(sc.frs):
+        if len(sc.perm) != len(sc.frs) or sc.include:
             continue
         lines.append(model_case(cl, -1, sc, sc.chunks, sc.oldlen, sc.perm)); owners.append((sc, -1))
         for k in range(len(sc.toks)):
@@ -365,6 +376,9 @@ def main():
         w = sc.work("mix%d" % j)
         for i in sc.frs[:j]:
             shutil.copyfile(os.path.join(sc.dir, "base", LAYOUT[i][0]), os.path.join(w, LAYOUT[i][0]))
+        for i in sc.frs[j:]:
+            if not os.path.exists(os.path.join(w, LAYOUT[i][0])):
+                open(os.path.join(w, LAYOUT[i][0]), "w").close()      # a fragment being created: empty until flushed
         rc, out = vlib.sh([exe, "dump", w], timeout=60)
         return (sc.sid, j), out
     mixd = dict(pool.map(mix_dump, [(sc, j) for sc in good for j in range(len(sc.frs) + 1)]))
@@ -466,7 +480,7 @@ def main():
             for en in errnos:
                 fjobs.append((sc, k, en))
             c = sc.calls[k]
-            if c.name == "openat" and (c.arg & O_CREAT_EXCL) == O_CREAT_EXCL:
+            if c.name == "openat" and (c.arg & O_CREAT_EXCL) == O_CREAT_EXCL and shimlib.is_temp_name(c.p1):
                 fjobs.append((sc, k, "EEXIST"))      # the name mktemp produced is taken: _GD_MakeTempFile retries
     fres = list(pool.map(fault_job, fjobs))
     for sc, k, en, rc, h, calls, fin, mid, raw in fres:
@@ -489,9 +503,9 @@ def main():
             if first["ret"] != 0 or cls_mid != ["N"] * len(cls_mid) or tm_mid:
                 spec_fail(sc, KEY_EEXIST, "%s with the temporary name of call %d taken (EEXIST): ret=%s files=%s, %d temporary files left %s... (expected a retry with another name and success)" % (
                     sc.op, k, first["ret"], cls_mid, len(tm_mid), sorted(tm_mid)[:3]), dict(extra, output=extra["output"][-300:]))
-            elif len([c for c in calls if c.name == "openat" and (c.arg & O_CREAT_EXCL) == O_CREAT_EXCL]) != len(sc.frs) + 1:
+            elif len([c for c in calls if c.name == "openat" and (c.arg & O_CREAT_EXCL) == O_CREAT_EXCL and shimlib.is_temp_name(c.p1)]) != len(sc.frs) + 1:
                 model_fail(sc, "%s: EEXIST at call %d: expected exactly one extra exclusive creation" % (sc.op, k), extra)
-            elif merge_writes(toks) != merge_writes(model[(sc.sid, -1)]["trace"]):
+            elif (sc.sid, -1) in model and merge_writes(toks) != merge_writes(model[(sc.sid, -1)]["trace"]):
                 model_fail(sc, "%s: EEXIST at call %d: apart from the failed creation the trace must be the success path (eexist_retry_transparent): real %s" % (sc.op, k, merge_writes(toks)), extra)
             continue
         toks, idxs, _ = tokens(calls, sc)
@@ -513,11 +527,13 @@ def main():
             flags = first["flags"] or []
             for n, i in enumerate(sc.frs):
                 pend = flags[i] if i < len(flags) else None
+                if sc.include and len(flags) <= NFRAG0:
+                    continue             # gd_include itself failed: nothing is pending
                 if cls_mid[n] == "O" and pend != (1 if i in sc.mods else 0):
                     problems.append(("pending-change-lost", "fragment %d still has its old file but its modified flag is %s" % (i, pend)))
                 if cls_mid[n] == "N" and pend != 0:
                     problems.append(("flag-not-cleared", "fragment %d was replaced but its modified flag is %s" % (i, pend)))
-            if "O" not in cls_mid:
+            if "O" not in cls_mid and not sc.include:
                 problems.append(("failure-but-written", "call reported failure although every fragment was replaced"))
             if tm_mid:
                 leak = True
@@ -603,6 +619,8 @@ def main():
         flags = first["flags"] or []
         for n, i in enumerate(sc.frs):
             want = (1 if i in sc.mods else 0) if cls_mid[n] == "O" else 0
+            if sc.include and len(flags) <= NFRAG0:
+                continue                 # gd_include itself failed: nothing is pending
             if i < len(flags) and flags[i] != want:
                 spec_fail(sc, key0 + "/flag-mismatch", "%s with failing calls %s: fragment %d file is %s but modified=%s" % (sc.op, [repr(c) for c in failed], i, cls_mid[n], flags[i]), extra)
         if tm_mid and not unlink_failed:
